@@ -4,11 +4,18 @@ TRUSTED = ("Trusted: rustc nightly MIR construction/type resolution; Bevy 0.15 c
            "RemovedComponents semantics as documented; std/smallvec/crossbeam method contracts as classified in the "
            "checker's tables; the rule engine itself (validated by the mutant catalogue and seeded changes). ")
 
+ALL = ["C%02d" % i for i in range(1, 19)]
 ENGINES = [
-    {"name": "cobweb-facts", "path": "driver/", "serves_properties": [],
-     "kind_free_text": "rustc_private driver (RUSTC_WORKSPACE_WRAPPER under cargo +nightly check) dumping resolved MIR, ADTs, impls of /repo's current tree as JSON facts"},
-    {"name": "rules", "path": "rules/", "serves_properties": [],
-     "kind_free_text": "Python rule engine over the MIR facts: CFG/dominators, must-pass-through and counting path rules, typestate, local provenance, call graph, sibling cross-checks"},
+    {"name": "cobweb-facts", "path": "driver/", "serves_properties": ALL,
+     "kind_free_text": "E1: rustc_private driver (RUSTC_WORKSPACE_WRAPPER under cargo +nightly check) dumping resolved MIR, ADTs, impls, visibility of /repo's current tree as JSON facts; decides nothing"},
+    {"name": "rules", "path": "rules/", "serves_properties": ALL,
+     "kind_free_text": "E2: Python rule engine over the MIR facts: CFG/dominators, must-pass-through and path-counting rules (intra- and interprocedural), local provenance, loop shapes and canonical collection sources, variant-arm association, call graph / who-may-call, sibling cross-checks; the deciding step of every check"},
+    {"name": "witness", "path": "witness/", "serves_properties": ["C02", "C03", "C04", "C05", "C06", "C07", "C09", "C10", "C13", "C14", "C16"],
+     "kind_free_text": "E3 (thorough tier): rustdoc compile_fail,E0xxx witnesses with compiling twins, path-depending on /repo (cargo +nightly test --doc --offline)"},
+    {"name": "clippy-xref", "path": "clippy/", "serves_properties": ["C07", "C18"],
+     "kind_free_text": "E4 (thorough tier): clippy disallowed-methods as an independent type-resolved enumeration of the deny-listed call sites; must agree site-for-site with the MIR enumeration, decides nothing"},
+    {"name": "selftest", "path": "mutants/ seeded/", "serves_properties": ALL,
+     "kind_free_text": "E5 (thorough tier): checker self-validation on scratch copies: breaking variants and independently seeded changes must fire, benign variants must stay silent; failure is exit 2 (no verdict), never a VIOLATION"},
 ]
 
 NOTES = ("Static analysis only: every verdict is computed from /repo's current source (type-checked MIR), nothing is executed. "
